@@ -282,10 +282,10 @@ class SortingVisitor(ImportInfoVisitor):
     def __init__(self, project, current_folder):
         self.project = project
         self.folder = current_folder
-        self.standard = set()
-        self.third_party = set()
-        self.in_project = set()
-        self.future = set()
+        self.standard = []
+        self.third_party = []
+        self.in_project = []
+        self.future = []
         self.context = importinfo.ImportContext(project, current_folder)
 
     def visitNormalImport(self, import_stmt, import_info):
@@ -301,13 +301,13 @@ class SortingVisitor(ImportInfoVisitor):
     def _check_imported_resource(self, import_stmt, resource, imported_name):
         info = import_stmt.import_info
         if resource is not None and resource.project == self.project:
-            self.in_project.add(import_stmt)
+            self.in_project.append(import_stmt)
         elif _is_future(info):
-            self.future.add(import_stmt)
+            self.future.append(import_stmt)
         elif imported_name.split(".")[0] in stdmods.standard_modules():
-            self.standard.add(import_stmt)
+            self.standard.append(import_stmt)
         else:
-            self.third_party.add(import_stmt)
+            self.third_party.append(import_stmt)
 
 
 class LongImportVisitor(ImportInfoVisitor):
